@@ -90,16 +90,39 @@ SizeSamples(g) ==
 \* which flows the engine runs for a request, in order: the flows whose pattern matches, until one answers
 Selected(g, us) == SelectSeq(g.flows, LAMBDA f : Match(f.pat, us))
 
-\* the processor executions of a transaction t = [m, us, tag, hx, st, blen, clen] and the answer
-RECURSIVE ReqWalk(_, _, _)
-ReqWalk(fs, t, i) ==
+\* the quota objects of the engine: [open, start, cnt] = the window counter that is enforced (AtomicIncWindow), stored = the
+\* copy the gauge reads (overwritten with the result of every charge: the new count, or 0 when the charge was refused),
+\* has = the group exists (created by the first charge)
+QObjFresh == [open |-> FALSE, start |-> 0, cnt |-> 0, stored |-> 0, has |-> FALSE]
+QObjCharge(q, o, now) ==
+    LET over == ~o.open \/ now - o.start >= q.w
+        cnt0 == IF over THEN 0 ELSE o.cnt
+        ok == cnt0 + 1 <= q.max
+    IN  [open |-> (IF over THEN ok ELSE TRUE), start |-> (IF over /\ ok THEN now ELSE o.start), cnt |-> (IF ok THEN cnt0 + 1 ELSE cnt0),
+         stored |-> (IF ok \/ Bug = "quota-used-counts-refused" THEN (IF over THEN 0 ELSE o.stored) + 1 ELSE IF Bug = "quota-used-kept-on-refusal" THEN cnt0 ELSE 0),
+         has |-> TRUE]
+QRefuses(q, o, now) == LET over == ~o.open \/ now - o.start >= q.w IN (IF over THEN 0 ELSE o.cnt) + 1 > q.max
+
+\* the processor executions of a transaction t = [m, us, tag, hx, st, blen, clen, d, td] and the answer: the system flows of
+\* the quotas whose filter matches charge first, then the user flows run
+QuotaProcs(g, t) ==
+    LET I == {i \in DOMAIN g.quotas : Match(g.quotas[i].pat, t.us)}
+        RECURSIVE sq(_)
+        sq(i) == IF i > Len(g.quotas) THEN <<>>
+                 ELSE (IF i \in I THEN <<<<"SystemFlow_" \o g.quotas[i].id, g.quotas[i].inc, "req", "">>>> ELSE <<>>) \o sq(i + 1)
+    IN  sq(1)
+
+RECURSIVE ReqWalk(_, _, _, _)
+ReqWalk(g, fs, t, i) ==
     IF i > Len(fs) THEN [procs |-> <<>>, early |-> FALSE, st |-> -1, ran |-> <<>>]
     ELSE LET f == fs[i]
-             hit == t.hx = "1"
-             p1 == <<f.name, f.fk, "req", IF hit THEN "hit" ELSE "miss">>
-         IN  IF hit /\ f.gate
+             qi == CHOOSE k \in DOMAIN g.quotas : g.quotas[k].id = f.lq
+             opens == IF f.lim THEN QRefuses(g.quotas[qi], g.qobj[qi], g.now) ELSE t.hx = "1"
+             out == IF f.lim THEN (IF opens THEN "above_limit" ELSE "below_limit") ELSE (IF opens THEN "hit" ELSE "miss")
+             p1 == <<f.name, f.fk, "req", out>>
+         IN  IF opens /\ f.gate
              THEN [procs |-> <<p1, <<f.name, f.gk, "req", "">>>>, early |-> TRUE, st |-> f.st, ran |-> <<f.name>>]
-             ELSE LET rest == ReqWalk(fs, t, i + 1)
+             ELSE LET rest == ReqWalk(g, fs, t, i + 1)
                   IN  [procs |-> <<p1>> \o rest.procs, early |-> rest.early, st |-> rest.st, ran |-> <<f.name>> \o rest.ran]
 
 \* the response side: the flows selected for the response, last first; an early answer walks them too (there is no
@@ -113,9 +136,9 @@ RespWalk(fs, t, i, early) ==
 
 Walk(g, t) ==
     LET fs == Selected(g, t.us)
-        rq == ReqWalk(fs, t, 1)
+        rq == ReqWalk(g, fs, t, 1)
         rs == RespWalk(fs, t, Len(fs), rq.early)
-    IN  [procs |-> rq.procs \o rs, early |-> rq.early, st |-> rq.st, ran |-> rq.ran, sel |-> [i \in DOMAIN fs |-> fs[i].name]]
+    IN  [procs |-> QuotaProcs(g, t) \o rq.procs \o rs, early |-> rq.early, st |-> rq.st, ran |-> rq.ran, sel |-> [i \in DOMAIN fs |-> fs[i].name]]
 
 \* the transaction as the trace shows it (what MetricsP reads)
 EventOf(g, t) ==
@@ -141,7 +164,9 @@ ITxn(g, e) ==
                         !.procRan = g.procRan \/ Len(e.procs) > 0,
                         !.pcount = g.pcount \o (IF Bug = "proc-count-disabled" THEN PExecOf([flows |-> [i \in DOMAIN g.flows |-> [g.flows[i] EXCEPT !.fm = TRUE, !.gm = TRUE, !.rm = TRUE]], gw |-> g.gw], e)
                                                 ELSE PExecOf([flows |-> g.flows, gw |-> g.gw], e)),
-                        !.pend = Append(g.pend, [m |-> e.logged.m, us |-> e.us, st |-> e.logged.st, tag |-> e.logged.tag, d |-> e.logged.d, td |-> e.logged.td])]
+                        !.pend = Append(g.pend, [m |-> e.logged.m, us |-> e.us, st |-> e.logged.st, tag |-> e.logged.tag, d |-> e.logged.d, td |-> e.logged.td]),
+                        !.qobj = [i \in DOMAIN g.quotas |-> IF Charges(g.flows, g.quotas[i], e.procs)
+                                                             THEN QObjCharge(g.quotas[i], g.qobj[i], g.now) ELSE g.qobj[i]]]
     IN  \* UpdateMetricsForAPICall counts response messages only: a request the gateway answered itself has none
         IF e.ans.early THEN g1
         ELSE ISize(g1, IF Bug = "doc-size" /\ e.clen >= 0 THEN e.clen ELSE e.blen)
@@ -207,8 +232,12 @@ LegacySamples(g) ==
           sum |-> 1000 * SumSeq([i \in DOMAIN g.lobs |-> IF g.lobs[i].l = L THEN g.lobs[i].n * g.lobs[i].val ELSE 0])] : L \in Ls}
 
 \* --------------------------------------------------------------------------------------------- start / reload
-NewStream(g, flows) == [g EXCEPT !.flows = flows, !.inv = <<>>, !.rtf = 0, !.flowRan = FALSE, !.procRan = FALSE,
-                                  !.active = IF Bug = "active-stale" /\ g.up THEN g.active ELSE Len(flows)]
+\* a new Stream: new flow counters, new quota resources - the gauges' callbacks of the previous quota resources stay registered
+NewStream(g, e) == [g EXCEPT !.flows = e.flows, !.inv = <<>>, !.rtf = 0, !.flowRan = FALSE, !.procRan = FALSE,
+                              !.active = IF Bug = "active-stale" /\ g.up THEN g.active ELSE Len(e.flows),
+                              !.quotas = e.quotas, !.qobj = [i \in DOMAIN e.quotas |-> QObjFresh],
+                              !.qoldobj = IF Bug = "quota-callbacks-unregistered" THEN <<>>
+                                          ELSE g.qoldobj \o [i \in DOMAIN g.quotas |-> [q |-> g.quotas[i], o |-> g.qobj[i]]]]
 
 \* a process start: Setup (Stream, NewMetricManager); the discovery file stays
 IStart(g, e) ==
@@ -218,8 +247,9 @@ IStart(g, e) ==
                         !.hnames = SeqSet(f.gm) \cap {"transaction_duration", "provider_transaction_duration"},
                         !.hists = (SeqSet(f.gm) \cap {"transaction_duration", "provider_transaction_duration"} # {}),
                         !.hobs = <<>>, !.hfile = <<>>, !.hver = 0, !.hcached = FALSE,
-                        !.legacy = ("legacy" \in DOMAIN e /\ e.legacy), !.lobs = <<>>, !.lfile = <<>>, !.lver = 0, !.lcached = FALSE]
-    IN  [NewStream(g1, e.flows) EXCEPT !.up = TRUE]
+                        !.legacy = ("legacy" \in DOMAIN e /\ e.legacy), !.lobs = <<>>, !.lfile = <<>>, !.lver = 0, !.lcached = FALSE,
+                        !.quotas = <<>>, !.qobj = <<>>, !.qoldobj = <<>>, !.now = 0]
+    IN  [NewStream(g1, e) EXCEPT !.up = TRUE]
 
 \* reloadFlows: a new Stream, ReloadMetricsConfig, UpdateMetricsForFlow(new stream)
 IReload(g, e) ==
@@ -231,7 +261,10 @@ IReload(g, e) ==
                         !.smReg  = IF Bug = "reload-as-documented" THEN f.sm ELSE g.smReg,
                         !.cfgLast = f]
         g2 == IF Bug = "size-since-reload" THEN [g1 EXCEPT !.calls = 0, !.avg = <<0, 1>>] ELSE g1
-    IN  IF Bug = "counters-cumulative" THEN [g2 EXCEPT !.flows = e.flows, !.active = Len(e.flows)] ELSE NewStream(g2, e.flows)
+    IN  IF Bug = "counters-cumulative" THEN [NewStream(g2, e) EXCEPT !.inv = g2.inv, !.rtf = g2.rtf, !.flowRan = g2.flowRan, !.procRan = g2.procRan]
+        ELSE NewStream(g2, e)
+
+ITick(g, d) == [g EXCEPT !.now = g.now + d]
 
 IReset(known) ==
     [known |-> known, gw |-> "", cfg0 |-> File([labels |-> <<>>, lepp |-> <<>>, gm |-> <<>>, sm |-> <<>>]),
@@ -239,7 +272,7 @@ IReset(known) ==
      labels |-> <<>>, lep |-> <<>>, gmReg |-> <<>>, smReg |-> <<>>, file |-> <<>>, fver |-> 0, cver |-> 0, cached |-> FALSE, cache |-> <<>>,
      pend |-> <<>>, calls |-> 0, avg |-> <<0, 1>>, flows |-> <<>>, inv |-> <<>>, rtf |-> 0, active |-> 0, flowRan |-> FALSE, procRan |-> FALSE,
      pcount |-> <<>>, up |-> FALSE, hnames |-> {}, hists |-> FALSE, hobs |-> <<>>, hfile |-> <<>>, hver |-> 0, hcached |-> FALSE,
-     legacy |-> FALSE, lobs |-> <<>>, lfile |-> <<>>, lver |-> 0, lcached |-> FALSE]
+     legacy |-> FALSE, lobs |-> <<>>, lfile |-> <<>>, lver |-> 0, lcached |-> FALSE, quotas |-> <<>>, qobj |-> <<>>, qoldobj |-> <<>>, now |-> 0]
 
 \* ---------------------------------------------------------------------------------------------- the registry
 SystemSamples(g) ==
@@ -258,11 +291,24 @@ ProcSamples(g) ==
                L(x) == x.l
            IN  {[n |-> fam, l |-> s.l, v |-> s.v, p |-> 1, sum |-> 0] : s \in CountBy(SelectSeq(g.pcount, T), L)} : fam \in ProcFams}
 
+\* the quota resources' gauges: the callbacks of every quota resource ever built in this process, oldest first (a later
+\* observation of the same series replaces an earlier one)
+QuotaSamples(g) ==
+    LET objs == [i \in DOMAIN g.qoldobj |-> g.qoldobj[i]] \o [i \in DOMAIN g.quotas |-> [q |-> g.quotas[i], o |-> g.qobj[i]]]
+        LimL(q) == {<<"quota_id", q.id>>} \cup Gw(g)
+        UsedL(q) == {<<"quota_id", q.id>>, <<"group_id", q.grp>>} \cup Gw(g)
+        lastOf(P(_)) == LET I == {i \in DOMAIN objs : P(objs[i])} IN objs[CHOOSE i \in I : \A j \in I : j <= i]
+    IN  {[n |-> "lunar_resources_quota_resource_quota_limit", l |-> L, p |-> 1, sum |-> 0,
+          v |-> 1000 * lastOf(LAMBDA x : LimL(x.q) = L).q.max] : L \in {LimL(objs[i].q) : i \in DOMAIN objs}}
+        \cup {[n |-> "lunar_resources_quota_resource_quota_used", l |-> L, sum |-> 0,
+                v |-> 1000 * lastOf(LAMBDA x : x.o.has /\ UsedL(x.q) = L).o.stored,
+                p |-> IF lastOf(LAMBDA x : x.o.has /\ UsedL(x.q) = L).o.stored > 0 THEN 1 ELSE 0] : L \in {UsedL(objs[i].q) : i \in {j \in DOMAIN objs : objs[j].o.has}}}
+
 \* the registry refuses the scrape when one series comes from two instruments (same name, descriptions by processor key)
 IGatherError(g) == Collide(g.pcount) /\ Bug # "one-instrument-per-kind"
 
 IScrape(g) ==
     CallCountSamples(g)
     \cup (IF "api_call_size" \in SeqSet(g.gmReg) THEN SizeSamples(g) ELSE {})
-    \cup SystemSamples(g) \cup ProcSamples(g) \cup HistSamples(g) \cup LegacySamples(g)
+    \cup SystemSamples(g) \cup ProcSamples(g) \cup HistSamples(g) \cup LegacySamples(g) \cup QuotaSamples(g)
 ================================================================================
